@@ -1,4 +1,5 @@
 import AsherahVerif.Proofs.KeyRef
+import AsherahVerif.Proofs.ExtraKeyRef
 import AsherahVerif.Generated.KeyCacheFacts
 /-
 C08 — a key in use is never destroyed underneath its user, under any schedule.
@@ -63,6 +64,108 @@ example : (objAt (run Facts.good init [.load 1 none false, .release 0, .load 0 (
   decide
 
 example : (run Facts.good init [.load 1 none false, .hit 1, .load 0 (some 1) true, .use 0, .deliver, .use 0]).holders = [1, 0, 0] := by
+  decide
+
+/-! ### exact accounting (strengthening): equality instead of inequality, hence no leak -/
+
+/-- **exact counting invariant**, every reachable state, any schedule: cache keys are unique, the
+reference count of every key object EQUALS the number of cache entries, pending eviction callbacks
+and holders that refer to it, and an object (in range) is destroyed exactly when its count is ≤ 0. -/
+theorem count_exact (sched : List Step) :
+    let s := run Facts.good init sched
+    (keysOf s.cache).Nodup ∧
+    (∀ o, (objAt s.objs o).refs = (cnt s o : Int)) ∧
+    (∀ o, o < s.objs.length → ((objAt s.objs o).destroyed = true ↔ (objAt s.objs o).refs ≤ 0)) ∧
+    (∀ o, 0 < cnt s o → o < s.objs.length) :=
+  let h := run_invEq init invEq_init sched
+  ⟨h.keys, h.count, h.dead, h.range⟩
+
+/-- **no leak**: in every reachable state every key object that is neither cached, nor awaiting its
+eviction callback, nor held by a thread has been destroyed (its secret wiped). -/
+theorem no_leak (sched : List Step) (o : Nat)
+    (ho : o < (run Facts.good init sched).objs.length)
+    (hc : inCache (run Facts.good init sched).cache o = 0)
+    (hp : o ∉ (run Facts.good init sched).pending)
+    (hh : o ∉ (run Facts.good init sched).holders) :
+    (objAt (run Facts.good init sched).objs o).destroyed = true := by
+  have h := run_invEq init invEq_init sched
+  apply (h.dead o ho).mpr
+  rw [h.count o]
+  have h1 := List.count_eq_zero.mpr hp
+  have h2 := List.count_eq_zero.mpr hh
+  unfold cnt; omega
+
+/-- conversely an object that IS referenced (cached, pending or held) is alive. -/
+theorem referenced_alive (sched : List Step) (o : Nat) (hpos : 0 < cnt (run Facts.good init sched) o) :
+    (objAt (run Facts.good init sched).objs o).destroyed = false := by
+  have h := run_invEq init invEq_init sched
+  cases hd : (objAt (run Facts.good init sched).objs o).destroyed with
+  | false => rfl
+  | true =>
+    have := (h.dead o (h.range o hpos)).mp hd
+    rw [h.count o] at this; omega
+
+/-- a quiescent reachable state with an empty cache has destroyed every key it ever created. -/
+theorem quiescent_all_destroyed (sched : List Step)
+    (hc : (run Facts.good init sched).cache = []) (hp : (run Facts.good init sched).pending = [])
+    (hh : (run Facts.good init sched).holders = []) (o : Nat) (ho : o < (run Facts.good init sched).objs.length) :
+    (objAt (run Facts.good init sched).objs o).destroyed = true :=
+  no_leak sched o ho (by rw [hc]; rfl) (by rw [hp]; simp) (by rw [hh]; simp)
+
+/-- **progress to quiescence** (the model has no `Close` step, so the cache's own entries stay):
+from any reachable state, once the event goroutine has run every pending callback and every holder
+has released its handle (`drain`), nothing is pending or held, the cache is unchanged, and every
+key object that is not in the cache is destroyed — exactly the cache's entries survive. -/
+theorem drained_only_cached_survive (sched : List Step) :
+    let s := run Facts.good init sched
+    let s' := run Facts.good s (drain s)
+    s'.pending = [] ∧ s'.holders = [] ∧ s'.cache = s.cache ∧
+    ∀ o, o < s'.objs.length → ((objAt s'.objs o).destroyed = false ↔ 0 < inCache s.cache o) := by
+  intro s s'
+  have hq := drain_quiescent Facts.good s
+  have h' : InvEq s' := by
+    show InvEq (run Facts.good (run Facts.good init sched) (drain (run Facts.good init sched)))
+    rw [← run_append]; exact run_invEq init invEq_init _
+  refine ⟨hq.1, hq.2.1, hq.2.2, ?_⟩
+  intro o ho
+  have hd := h'.dead o ho
+  have hc := h'.count o
+  have hcnt : cnt s' o = inCache s.cache o := by
+    show inCache s'.cache o + s'.pending.count o + s'.holders.count o = _
+    rw [show s'.cache = s.cache from hq.2.2, show s'.pending = [] from hq.1, show s'.holders = [] from hq.2.1]
+    simp
+  rw [hcnt] at hc
+  cases hdd : (objAt s'.objs o).destroyed with
+  | false =>
+    simp only [true_iff]
+    apply Classical.byContradiction; intro hn
+    have : (objAt s'.objs o).refs ≤ 0 := by omega
+    have := hd.mpr this
+    rw [hdd] at this; exact absurd this (by decide)
+  | true =>
+    have := hd.mp hdd
+    constructor
+    · intro h; exact absurd h (by decide)
+    · intro h; omega
+
+/-- a cache that does NOT release its reference in the evict callback leaks: a reachable state with
+an object that nobody references any more (not cached, not pending, not held) and is not destroyed. -/
+theorem leak_without_evict_release :
+    let s := run { Facts.good with evictReleasesCacheRef := false } init
+      [.load 1 none false, .release 0, .load 0 (some 1) false]
+    cnt s 0 = 0 ∧ 0 < s.objs.length ∧ (objAt s.objs 0).destroyed = false ∧ (objAt s.objs 0).refs = 1 := by
+  decide
+
+/-- non-vacuity: the exact count really moves (cache + two holders = 3), `no_leak` applies to a real
+object (object 0 after its eviction and release), and `drain` does work. -/
+example : (objAt (run Facts.good init [.load 1 none false, .hit 1]).objs 0).refs = 3 := by decide
+example : let s := run Facts.good init [.load 1 none false, .release 0, .load 0 (some 1) false]
+    0 < s.objs.length ∧ inCache s.cache 0 = 0 ∧ 0 ∉ s.pending ∧ 0 ∉ s.holders ∧ (objAt s.objs 0).destroyed = true := by
+  decide
+example : let s := run Facts.good init [.load 1 none false, .hit 1, .load 0 (some 1) true]
+    drain s = [.deliver, .release 1, .release 0, .release 0] ∧
+    (objAt (run Facts.good s (drain s)).objs 0).destroyed = true ∧
+    (objAt (run Facts.good s (drain s)).objs 1).destroyed = false := by
   decide
 
 end AsherahVerif.Props.C08
